@@ -104,19 +104,22 @@ pub fn heap_addr(o: Object) -> usize {
     word & !0b111
 }
 
-/// Every distinct heap box reachable from `o` (alive ones only are followed).
+/// Every distinct heap box reachable from `o` (alive ones only are followed). Iterative.
 pub fn reachable_boxes(o: Object, out: &mut Vec<Object>) {
-    if !o.is_heap_allocated() {
-        return;
-    }
-    let a = heap_addr(o);
-    if out.iter().any(|x| heap_addr(*x) == a) {
-        return;
-    }
-    out.push(o);
-    if o.tag() == Type::Array && verif::is_alive(o) {
-        for v in o.as_vec().clone() {
-            reachable_boxes(v, out);
+    let mut seen: std::collections::HashSet<usize> = out.iter().map(|x| heap_addr(*x)).collect();
+    let mut work = vec![o];
+    while let Some(o) = work.pop() {
+        if !o.is_heap_allocated() {
+            continue;
+        }
+        if !seen.insert(heap_addr(o)) {
+            continue;
+        }
+        out.push(o);
+        if o.tag() == Type::Array && verif::is_alive(o) {
+            for v in o.as_vec().iter() {
+                work.push(*v);
+            }
         }
     }
 }
@@ -155,6 +158,8 @@ pub struct RunOpts {
     pub budget: Option<u64>,
     pub ledger: bool,
     pub trace: bool,
+    /// render the returned value (recursive in the nesting depth of the value)
+    pub render: bool,
 }
 
 impl Default for RunOpts {
@@ -163,6 +168,7 @@ impl Default for RunOpts {
             budget: Some(QUICK_BUDGET),
             ledger: true,
             trace: false,
+            render: true,
         }
     }
 }
@@ -206,7 +212,7 @@ fn finish(r: std::thread::Result<Result<Object, Error>>, opts: RunOpts) -> ImplO
         Err(p) => ImplEnd::Panic(format!("{} [{}]", panic_message(p), last_panic_loc())),
         Ok(Err(e)) => classify_err(&e),
         Ok(Ok(obj)) => {
-            let s = render_object(obj);
+            let s = if opts.render { render_object(obj) } else { "<value>".to_string() };
             if opts.ledger {
                 // the caller releases the result graph: each distinct box once
                 let mut boxes = Vec::new();
